@@ -1062,8 +1062,7 @@ fn gen_script(fam: &[Entry], seed: u64, index: u64, thorough: bool) -> (Script, 
                 forced[v - 1]
             } else {
                 // 10/11: one-sided arities; 12: module type of the same name (only where the host has one)
-                let k = 1 + p.below(if cx.env == 0 { 11 } else { 12 });
-                if k >= 10 { k } else { k.min(9) }
+                1 + p.below(if cx.env == 0 { 11 } else { 12 })
             };
             let (params, ret, label) = variant(&mut p, e, which, &cx);
             let name = format!("q{}", decls.len());
@@ -1499,13 +1498,13 @@ fn main() {
             let seed: u64 = args.get(2).and_then(|s| s.parse().ok()).unwrap_or(1);
             let thorough = args.get(3).map(|s| s == "thorough").unwrap_or(false);
             let tier = if thorough { "thorough" } else { "quick" };
-            let scripts: u64 = if thorough { 1000 } else { 48 };
+            let scripts: u64 = if thorough { 1000 } else { 120 };
             let seed_s = seed.to_string();
             use rotov_harness::worker::{Ended, run_batches};
             run_batches(
                 &[&seed_s, tier],
                 scripts,
-                if thorough { 125 } else { 48 },
+                if thorough { 125 } else { 60 },
                 std::time::Duration::from_secs(1500),
                 &mut rep,
                 |rep: &mut Report, idx: u64, how: &Ended| {
